@@ -29,7 +29,13 @@ BUDGET = {"quick": {"random": 2500}, "thorough": {"random": 40000}}
 
 
 def strategy(tier):
-    return gen.rec_case(max_obj=10, max_sp=8, min_obj=2, costs="coherent", labelled=True, max_fam=4, single_prob=10)
+    from hypothesis import strategies as st
+
+    # a third of the cases are deep chains (caterpillars of 5..8 leaves, <=6 species, independent leaf contents in one
+    # hidden order): inheritance through three and more consecutive ancestors, where the two models part ways
+    return st.one_of(gen.rec_case(max_obj=10, max_sp=8, min_obj=2, costs="coherent", labelled=True, max_fam=4, single_prob=10),
+                     gen.rec_case(max_obj=10, max_sp=8, min_obj=2, costs="coherent", labelled=True, max_fam=4, single_prob=10),
+                     gen.deep_chain_case(min_obj=5, max_obj=8, max_sp=6, max_fam=4))
 
 
 def _cost(outs):
